@@ -189,6 +189,30 @@ for _k, _v in ROUND7.items():
     CHECKS[_k]["text"] = CHECKS[_k]["text"] + _v
 
 
+ROUND8 = {
+    "C01": " Two programs built from the very same argument lists; command objects of another program or of no program next to namesakes.",
+    "C02": " Columns whose offset dwarfs their spread; a program run again after the file that made it fail was completed.",
+    "C03": " NetCDF tables re-read with another number in the cells MissingValue declares missing; hard-masked fields; markers spelled as other tools write them.",
+    "C04": " Z-score conversions of offset and constant fields.",
+    "C06": " Fields as tuple / iterator / generator in direct execute(); fields handed over as command objects next to namesakes; source fields replaced before the run.",
+    "C07": " Faults on commands without a program; fields handed over as program-less command objects; fields read from one CSV path rewritten for every case.",
+    "C08": " Data-derived thresholds on rasters beyond 2^20 cells; number lists as tuples; lone outliers for the mean-to-mid curves.",
+    "C10": " Key / value arguments in files loaded through Program.from_source.",
+    "C11": " Tool runs on files with bare CR line ends; syntax errors whose offending token spans several lines.",
+    "C12": " Histories over an input file that disappears and comes back; a program run again after a repaired failure; empty metadata lists.",
+    "C13": " Rings closed through add_command; ratio texts and many-digit numbers.",
+    "C14": " One-command programs that refer to themselves; the recursive-model error must not be a RecursionError.",
+    "C15": " Undeclared arguments differing from declared ones in case only; keyword-like result names.",
+    "C16": " Metadata on commands of translated files.",
+    "C17": " Tables without rows; tables read and written through the command-line tool.",
+    "C18": " File names relative to the working directory.",
+    "C19": " Variants inheriting execute(); classes imported from a requested library through add_command; -l names ending in p / y.",
+    "C20": " Snapshots with mask state; nested lists through an untyped list input in live runs.",
+}
+for _k, _v in ROUND8.items():
+    CHECKS[_k]["text"] = CHECKS[_k]["text"] + _v
+
+
 def main():
     props = [json.loads(l) for l in open(os.path.join(VERIF, "properties.jsonl"))]
     checks = []
